@@ -5,7 +5,7 @@ import strict_tlv as S
 
 PROP = 'C01'
 TITLE = 'Interest and Data packets survive an encode/decode round trip'
-LEAN_TARGETS = ['NdnProofs.Props.C01', 'NdnGen.C01']
+LEAN_TARGETS = ['NdnProofs.Props.C01', 'NdnGen.C01', 'NdnProofs.Props.TlvVarGen', 'NdnGen.TlvVar']
 THEOREMS = [
     'Ndn.C01.make_data_wire', 'Ndn.C01.make_data_unsigned_wire', 'Ndn.C01.make_interest_wire',
     'Ndn.C01.sig_value_elem_rejects', 'Ndn.C01.made_data_is_one_element', 'Ndn.C01.parse_make_data_partial',
@@ -18,6 +18,10 @@ THEOREMS = [
     'Ndn.Packet.parseInterest_signed_at', 'Ndn.Packet.parseInterest_params_at',
     'Ndn.C01.parse_data_value', 'Ndn.C01.parse_make_data_unsigned',
     'Ndn.Gen.C01.schemas_match',
+    # tlv_var.py (shrink_length after a short signature, the TL writers) TRANSLATED from its source text on every run
+    # (harness/py2lean.py -> lean/NdnGen/TlvVar.lean) = the model functions the packet encoder is written with
+    'Ndn.TlvVarGen.all_translated', 'Ndn.TlvVarGen.shrink_length_eq', 'Ndn.TlvVarGen.write_tl_num_eq',
+    'Ndn.TlvVarGen.write_tl_num_neg', 'Ndn.TlvVarGen.get_tl_num_size_eq', 'Ndn.TlvVarGen.parse_tl_num_eq',
 ]
 PARTIAL = {
     'Ndn.C01.parse_make_data_partial':
@@ -36,6 +40,9 @@ PARTIAL = {
 }
 TRUSTED = [
     'C01: the signer is abstract (it reserves `reserved` bytes and writes `sig`); the bytes it wrote are recorded from the real signer by a proxy and handed to the model, so no cryptography is modelled',
+    'C01 (tlv_var.py): shrink_length, write_tl_num, get_tl_num_size, parse_tl_num are translated from the source text by '
+    'harness/py2lean.py and proved equal to the model functions for all inputs; trusted there: the translator and '
+    'lean/NdnModel/PySem.lean (the reading of CPython ints, struct, indexing, slicing, memoryview writes as list updates)',
     'C01: SHA-256 of the model (NdnModel/Sha256.lean) is validated against hashlib through the ParametersSha256Digest of every generated Interest; it is opaque in the theorems',
 ]
 RULE = ('Data and Interest packets built by make_data / make_interest from random names (0..6 components of 13 types, with a '
@@ -348,6 +355,8 @@ def finding_key(case, impl, why):
 def extract(repo):
     from props.c08 import _lean_schema
     from ndn.encoding import ndn_format_0_3 as f
+    import py2lean
+    py2lean.write_generated(repo)      # lean/NdnGen/TlvVar.lean: tlv_var.py translated from the tree under test
     out = ['import NdnModel.PacketEnc',
            '/- GENERATED on every run by harness/props/c01.py from the live `_encoded_fields` of DataPacketValue and',
            '   InterestPacketValue.  Do not edit. -/',
